@@ -274,6 +274,15 @@ pub fn run_c05(ctx: &RunCtx) -> Outcome {
         t
     };
     stage_random(ctx, &mut o, &p, "random unrestricted", &RandCfg::wild(), &rtexts, cases, &|_| true);
+    if o.violations.is_empty() {
+        // wide patterns: 8..37 groups, save slots beyond 64
+        let wcases = if ctx.quick() { 20_000 } else { 300_000 };
+        let wtexts = gen::wide_texts();
+        let (st, found) = explore_random_with(ctx, &p, "wide patterns", &wtexts, wcases, &|bytes| Some(gen::decode_wide(bytes)));
+        o.generators.push(serde_json::json!({"mode": "random(proptest bytes -> 8..37 groups in a row, wrapped, with a tail reading one group back)", "name": "wide patterns", "cases": wcases, "texts": wtexts.len(), "evaluations": st.evaluations, "seed": ctx.seed}));
+        let v = found.map(|f| finish(ctx, &p, f));
+        o.absorb(st, v);
+    }
     if !ctx.quick() && o.violations.is_empty() {
         fuzz_stage(ctx, &mut o, &p, "fuzz_search", crate::fuzzdec::run_search);
     }
